@@ -4,6 +4,7 @@ import (
 	"bytes"
 	"encoding/binary"
 	"fmt"
+	"github.com/contiv/libOpenflow/common"
 	"sort"
 	"strings"
 	"testing"
@@ -122,6 +123,12 @@ func TestC01(t *testing.T) {
 		// action grows after it was attached (where the library sizes containers when asked) are in scope here
 		g := gen.New(rt, drawBudget(rt))
 		g.LateGrowth = true
+		// a controller that also talks to peers of other protocol versions builds hellos for them (the
+		// constructor takes the version): what the OpenFlow 1.3 constructors stamp afterwards is still 1.3
+		if gen.Pick(rt, "foreign_hello_first", 6) == 0 {
+			common.NewHello([]int{1, 2, 3, 5, 6}[gen.Pick(rt, "foreign_version", 5)])
+			c.Label("hello_for_another_version_built_first")
+		}
 		m, n, kind := g.Message()
 		bm := builtMsg{m, n, kind, g.Labels}
 		c.Eval()
